@@ -254,6 +254,11 @@ class Counter(HashTable):
                The set of integers to count
         """
         t = time.time()
+        keys = np.asanyarray(keys)
+        if keys.dtype != self._key_dtype and np.issubdtype(keys.dtype, np.integer):
+            # a sample that the key dtype cannot represent is not a key (casting would wrap it onto one)
+            info = np.iinfo(self._key_dtype)
+            keys = keys[(keys >= info.min) & (keys <= info.max)]
         keys = np.asanyarray(keys, dtype=self._key_dtype)
         hashes = self._get_hash(keys)
         view = self._keys._shape.view(hashes)
